@@ -186,3 +186,47 @@ Proof.
   cbv zeta. split; [intros g blk H; rewrite nth_error_app1; [exact H|apply nth_error_Some; congruence]|].
   split; [reflexivity|]. vm_compute. repeat split; reflexivity.
 Qed.
+
+(* ---------------------------------------------------------------------------------------------
+   THE NEIGHBOUR SEARCH OVER THE COLUMN ARRAY IS THE C TEXT.  pos_next / pos_prev of ren.c (the two
+   static functions ren_off, ren_cursor and ren_next are built from; RenDefs.pos_next / pos_prev are what
+   C17_roundtrip, C17_next and C17_cursor speak about) are translated by tools/c2clite.py on every run.
+   For EVERY int array in memory (l, at least n entries -- ren_position allocates n + 1), every p and cur:
+   the call returns the value of the model, the memory is unchanged, and every load is inside the
+   array.  next_ok / prev_ok is what the C text needs for `pos[i] - !cur` / `pos[i] + !cur` to stay inside
+   int (columns are never INT_MIN / INT_MAX; without it the C expression is undefined, see the Example). *)
+From NV Require Import TrRen.
+
+Theorem C17_tr_pos_next : forall m b l n p c d fuel, int_arr_at m b l -> ints_ok l -> (n <= length l)%nat ->
+  Z.of_nat n <= 2147483647 -> next_ok (firstn n l) (negb (c =? 0)) -> (n < fuel)%nat ->
+  callf cprog fuel (S d) F_pos_next [VPtr b 0; VInt (Z.of_nat n); VInt p; VInt c] m
+  = Ok (VInt (pos_next l n p (negb (c =? 0))), m).
+Proof. exact tr_pos_next. Qed.
+Print Assumptions C17_tr_pos_next.
+
+Theorem C17_tr_pos_prev : forall m b l n p c d fuel, int_arr_at m b l -> ints_ok l -> (n <= length l)%nat ->
+  Z.of_nat n <= 2147483647 -> prev_ok (firstn n l) (negb (c =? 0)) -> (n < fuel)%nat ->
+  callf cprog fuel (S d) F_pos_prev [VPtr b 0; VInt (Z.of_nat n); VInt p; VInt c] m
+  = Ok (VInt (pos_prev l n p (negb (c =? 0))), m).
+Proof. exact tr_pos_prev. Qed.
+Print Assumptions C17_tr_pos_prev.
+
+(* the translated functions RUN on the column array of "a<TAB>中b" (C17_nonvacuous: [0; 1; 8; 10; 11], n = 4):
+   after column 1 comes 8; at or before 9 is 8; nothing after 10 among the first four; one entry
+   beyond the array is a checked error; INT_MIN - 1 is a checked error (the precondition is not idle) *)
+Example C17_tr_pos_nonvacuous :
+  let l := [0; 1; 8; 10; 11] in
+  let g := length cglobals in
+  let m := cglobals ++ [map VInt l] in
+  int_arr_at m g l /\ ints_ok l /\ next_ok (firstn 4 l) false /\ prev_ok (firstn 4 l) false /\
+  callf cprog 10 1 F_pos_next [VPtr g 0; VInt 4; VInt 1; VInt 0] m = Ok (VInt 8, m) /\
+  callf cprog 10 1 F_pos_prev [VPtr g 0; VInt 4; VInt 9; VInt 1] m = Ok (VInt 8, m) /\
+  callf cprog 10 1 F_pos_next [VPtr g 0; VInt 4; VInt 10; VInt 0] m = Ok (VInt (-1), m) /\
+  pos_next l 4 1 false = 8 /\ pos_prev l 4 9 true = 8 /\
+  callf cprog 10 1 F_pos_next [VPtr g 0; VInt 6; VInt 1; VInt 0] m = Err EOob /\
+  callf cprog 10 1 F_pos_next [VPtr 0 0; VInt 1; VInt 0; VInt 0] [map VInt [-2147483648]] = Err EOverflow.
+Proof.
+  cbv zeta. split; [reflexivity|]. split; [apply ints_ok_dec; reflexivity|].
+  split; [apply next_ok_dec; reflexivity|]. split; [apply prev_ok_dec; reflexivity|].
+  vm_compute. repeat split; reflexivity.
+Qed.
